@@ -288,6 +288,13 @@ func (n *cnNet) buildGenesis() error {
 		stk.Delegations[v.entAddr] = map[staking.Address]*staking.Delegation{v.entAddr: {Shares: q(self)}}
 		total += 1_000 + self
 	}
+	if cfg.MinTransact > 0 {
+		// node accounts sign their own (re-)registrations: they need the minimum balance an account must keep to transact
+		for _, v := range n.vals {
+			stk.Ledger[staking.NewAddress(v.ident.NodeSigner.Public())] = &staking.Account{General: staking.GeneralAccount{Balance: q(uint64(cfg.MinTransact) + 20)}}
+			total += uint64(cfg.MinTransact) + 20
+		}
+	}
 	for _, u := range n.users {
 		stk.Ledger[u.addr] = &staking.Account{General: staking.GeneralAccount{Balance: q(2_000)}}
 		total += 2_000
